@@ -25,6 +25,12 @@ def sortRanges (rs : List PosRange) : List PosRange :=
 
 def featOps (op : String) (args : List String) (_impl : String) : Option String :=
   match op, args with
+  | "PUB", [t] =>
+    -- the ranges of the diagnostics the broker publishes for a freshly opened document
+    withDoc t fun d =>
+      match d.errors with
+      | .error e => panicStr e
+      | .ok errs => String.join (errs.map (fun e => prStr (asPosRange e.range d.text) ++ ";"))
   | "GOTO", [k, t, l, c] =>
     match l.toNat?, c.toNat? with
     | some l, some c => withDoc t fun d =>
